@@ -9,7 +9,7 @@ HERE = os.path.dirname(os.path.dirname(os.path.abspath(__file__)))
 PBT = "property-based testing (proptest as a library, fixed seed, shrinking to a JSON replay)"
 CHECKS = {
   "C01": ("exploration", PBT + " of generated configurations x derived targets against an independent routing model; declaration-order metamorphic relation",
-          "Generated logger trees (descendants, skipped levels, textual-prefix siblings, leading '::', additive flags, repeated attachments) with targets derived from each tree are logged through log4rs::Logger; the multiset of deliveries must equal a component-wise reference model, and the same configuration in a permuted declaration order must deliver identically; lists reach the builders through a mix of singular and bulk calls, some cases start after caught appender panics on the same thread, probe records carry a configured logger's name as module path, the root level may be set through root_mut() after build, and an appender logs a nested record from inside append. Held on N generated cases, no absence proof.",
+          "Generated logger trees (descendants, skipped levels, textual-prefix siblings, leading '::', additive flags, repeated attachments) with targets derived from each tree are logged through log4rs::Logger; the multiset of deliveries must equal a component-wise reference model, and the same configuration in a permuted declaration order must deliver identically; lists reach the builders through a mix of singular and bulk calls, some cases start after caught appender panics on the same thread, probe records carry a configured logger's name as module path, the root level may be set through root_mut() after build, an appender logs a nested record from inside append, and all probes hand their target over in one reused buffer. Held on N generated cases, no absence proof.",
           "Trusts the harness model route() (written from the statement) and harness capture appenders.", "DESIGN.md §2 C01"),
   "C02": ("exploration", PBT + " of reconfiguration histories, one child process per history (global log facade), oracle = routing model + max-level rule",
           "Histories of 1-8 configurations whose most verbose level is steered up and down (held by root, leaf or deep logger) are installed through the three initialisers and Handle::set_config in a dedicated process; after every step log::max_level(), Logger::max_log_level(), enabled() on a target x level grid and log! macro deliveries are compared with the model; an appender of the outgoing configuration logs through the macros while set_config tears it down, and that record must reach what the incoming configuration prescribes.",
@@ -18,7 +18,7 @@ CHECKS = {
           "1-4 appenders with chains of scripted Accept/Neutral/Reject filters and real ThresholdFilters, scripted appender failures, generated record levels; consult log, delivery log and error-handler log must equal the model per appender independently; filters are attached through a mix of filter()/filters(), chains may hold the library's ThresholdFilter unwrapped, all failing appenders may fail with the very same std::io::Error, and in some cases the error handler of another logger panicked earlier on the thread. All 121 chains of length <= 4 x failing/healthy x position and the 6x5 threshold table are enumerated completely.",
           "Filters/appenders are harness implementations observing calls (real ThresholdFilter wrapped).", "DESIGN.md §2 C03"),
   "C04": ("exploration", PBT + " with amplified thread schedules (parking inside the critical section, reader thread), oracle = exact file content / whole-record stream",
-          "Pre-existing content x open mode x pattern or multi-chunk encoder x single-threaded appends checked through a fresh handle after every call x concurrent phases of 2-8 threads in which designated records park between two chunks inside the appender's critical section while a reader samples the file, optionally after an append that unwound out of the appender (panicking Display argument), after a message argument that logged through another file appender while being formatted, and after another file appender failed in the middle of a record; the file must be exactly pre-existing ++ acknowledged records, whole, per-thread ordered.",
+          "Pre-existing content x open mode x pattern or multi-chunk encoder x single-threaded appends checked through a fresh handle after every call x concurrent phases of 2-8 threads in which designated records park between two chunks inside the appender's critical section while a reader samples the file, optionally after an append that unwound out of the appender (panicking Display argument), after a message argument that logged through another file appender while being formatted, and after another file appender failed in the middle of a record; the appender may be built by the file deserializer; part full-device: on /dev/full no append may return Ok; the file must be exactly pre-existing ++ acknowledged records, whole, per-thread ordered.",
           "OS scheduler not controlled: interleavings are amplified, not enumerated.", "DESIGN.md §3 C04"),
   "C05": ("exploration", PBT + " of operation histories (append/restart/clock advance/concurrent burst) over triggers x rollers, oracle = suffix-of-acknowledged-stream invariant",
           "Histories over size/on-start-up/time (guarded clock)/user-defined pre- and post-processing triggers and delete/fixed-window rollers (plain, gz, zst, directory patterns), both open modes, optionally a user-defined roller that fails on scripted calls, foreground and background-rotation builds; after every operation every retained file must parse into whole self-delimiting records and archives oldest-to-newest plus the active file must be a gap-free suffix of the acknowledged stream, records disappearing only from a full window; histories may contain appends that unwind out of the appender (panicking Display argument); part handover: an old and a new appender instance on one path write alternately and the file must be exactly all acknowledged records in order.",
@@ -27,13 +27,13 @@ CHECKS = {
           "Limits incl. 0, pre-existing files around the limit, both open modes, restarts, multi-byte payloads, multi-chunk encoder: at every policy consultation len_estimate == on-disk size == model size, rotation iff size > N, archive content == rolled content; the configured path may be a symbolic link; parts: contended (2-4 writer threads), long (70 000 appends through one open file), pre-processing (user-defined pre-processing policy consulted right after failed rolls) - same accounting at every consultation.",
           "Foreground rotation build.", "DESIGN.md §3 C06"),
   "C07": ("exploration", PBT + " of roller configurations x initial directory states x roll sequences; oracle = full recursive snapshot model",
-          "Bases incl. u32::MAX-count+1, counts 0-6, 14 patterns (index in name/directory/twice, $ENV incl. a value containing '{}', gz/zst), initial windows with gaps/outside-window archives/bystanders, 1-10 rolls of files up to 400 kB incompressible, rolled-file names that are not valid UTF-8, temp-file look-alikes in the background build, archive directories cleared away between rolls, one roller through 400 successive rolls, rolled file optionally on another filesystem (copy fallback), foreground and background-rotation builds; exact shift for gap-free windows, charitable ordered-list relation with gaps, nothing outside the managed names touched.",
+          "Bases incl. u32::MAX-count+1, counts 0-6, 14 patterns (index in name/directory/twice, $ENV incl. a value containing '{}', gz/zst), initial windows with gaps/outside-window archives/bystanders, 1-10 rolls of files up to 400 kB incompressible, rolled-file names that are not valid UTF-8, temp-file look-alikes in the background build, archive directories cleared away between rolls, the pattern's variable changing value between rolls, indices that land in a directory only after expansion, one roller through 400 successive rolls, rolled file optionally on another filesystem (copy fallback), foreground and background-rotation builds; exact shift for gap-free windows, charitable ordered-list relation with gaps, nothing outside the managed names touched.",
           "Archive names computed by the harness's own $ENV expander.", "DESIGN.md §3 C07"),
   "C08": ("fault_enumeration", PBT + " of histories, each expanded into every (rotation, step) x {injected error, crash image} plus hook-free obstacle directories",
-          "For every generated history the check first learns its rotations, then enumerates each archive shift and the final move/compress of each rotation as the point of failure (guarded step callback returning Err) and as the point of process death (directory image + restart), and places obstacle directories and, for any slot directory of the window (counts up to 6), dangling symlinks or regular files without hooks, with the active file optionally on another filesystem; after every append and on every image the stream/retention oracles must hold, the failing append must return Err without panicking, and the appender must recover; windows may end at index u32::MAX; part global-logger: the appender as root appender of the installed logger in a child process, every record logged through the macros while the archive slots are obstructed must come back (20 s watchdog per record), in order.",
+          "For every generated history the check first learns its rotations, then enumerates each archive shift and the final move/compress of each rotation as the point of failure (guarded step callback returning Err) and as the point of process death (directory image + restart), and places obstacle directories and, for any slot directory of the window (counts up to 6), dangling symlinks, regular files or links into procfs without hooks, with the active file optionally on another filesystem; after every append and on every image the stream/retention oracles must hold, the failing append must return Err without panicking, and the appender must recover; windows may end at index u32::MAX; part global-logger: the appender as root appender of the installed logger in a child process, every record logged through the macros while the archive slots are obstructed must come back (20 s watchdog per record), in order.",
           "Hooks H2 (step callback) and H1; crash = directory image between steps (page cache intact), fsync not modelled.", "DESIGN.md §3 C08"),
   "C09": ("exploration", PBT + " of pattern ASTs printed to strings, under both build profiles; oracle = reference renderer computed from the AST; alias metamorphic relation",
-          "Patterns are generated as ASTs over the documented grammar and printed; output for generated records (Unicode, absent fields, MDC, multi-piece messages, short writes, named threads) must equal render(AST, record), styles balanced, alias-flipped pattern identical; sub-second dates are cut out and parsed back into the encode bracket; TZ is moved through fixed-offset zones while the process runs and local dates must follow; the process forks after encoding and the child's {P}/{pid} must be the child's; some messages are argument-free literals.",
+          "Patterns are generated as ASTs over the documented grammar and printed; output for generated records (Unicode, absent fields, MDC, multi-piece messages, short writes, named threads) must equal render(AST, record), styles balanced, alias-flipped pattern identical; sub-second dates are cut out and parsed back into the encode bracket; TZ is moved through fixed-offset zones while the process runs and local dates must follow; the process forks after encoding and the child's {P}/{pid} must be the child's; some messages are argument-free literals; the three routes to the default pattern must render alike in the local zone.",
           "Date formatting reference uses chrono; TZ pinned to a fixed offset (except part tz-change).", "DESIGN.md §4 C09"),
   "C10": ("exploration", PBT + " of width specs with text lengths chosen around m and M and scripted short / interrupted (EINTR) writes; oracle = pad(first_M_chars) plus raw-byte assertions",
           "Single-formatter cases assert on the raw bytes valid UTF-8, <= M and >= m characters and equality with the law; nested cases (spec probability 0.9, depth <= 4) compare with the compositional reference, including the exact sequence of text pieces and style requests.",
@@ -48,16 +48,16 @@ CHECKS = {
           "build() Ok iff no offence; every error names a real offence and every offending item is covered; build_lossy equals the valid part; returned configs are installed and probed under catch_unwind against route(); appender names include the empty string and a blank; all public builder routes (builder()/default(), singular/bulk); inputs with 400 and 1000+ offending items.",
           "Colon runs of even length >= 4 are unsettled by the statement (either outcome accepted).", "DESIGN.md §5 C13"),
   "C14": ("exploration", PBT + " of logical configurations rendered by three hand-written emitters, differential against a programmatic twin; mutation-based negative oracle by layer",
-          "Each logical configuration is rendered to YAML, JSON and TOML (generated key order, defaultable keys present/omitted), loaded through both paths, compared through Config accessors and through directory snapshots after probe records with a twin built by the public builders (ten clock-free patterns incl. the empty one and line breaks after {n}); the strict path is the library's create_raw_config; mutated documents (unknown keys carry a number, null, empty string, empty list or empty map) must be rejected at the right layer, lossy loading must keep everything else working, degenerate numerics never panic.",
+          "Each logical configuration is rendered to YAML, JSON and TOML (generated key order, defaultable keys present/omitted), loaded through both paths, compared through Config accessors and through directory snapshots after probe records with a twin built by the public builders (ten clock-free patterns incl. the empty one and line breaks after {n}; the configured path may be a symbolic link to a differently named file); the strict path is the library's create_raw_config; mutated documents (unknown keys carry a number, null, empty string, empty list or empty map) must be rejected at the right layer, lossy loading must keep everything else working, degenerate numerics never panic.",
           "Hook H1 pins the clock; console appenders presence only; root level default not asserted.", "DESIGN.md §5 C14"),
   "C15": ("exploration", PBT + " of concurrent swap plans, exhaustive re-entrant swaps at every fan-out position, model-based histories of file edits against the single-stepped reloader",
-          "Tagged capture appenders make every delivery attributable to one configuration generation: no record may mix generations or miss an appender, under volume and under re-entrant set_config from inside append at every position; the real ConfigReloader::run_once is stepped through generated edit histories (valid, garbage, not UTF-8, touched, deleted, older/same mtime, rate changes) and compared with a model of the statement, observed behaviourally; two smoke cases through the real init_file (in-place edits; a symbolic link re-pointed atomically) in which a valid change not applied within 30 s at refresh_rate 20 ms is a violation.",
+          "Tagged capture appenders make every delivery attributable to one configuration generation: no record may mix generations or miss an appender, under volume and under re-entrant set_config from inside append at every position; the real ConfigReloader::run_once is stepped through generated edit histories (valid, garbage, not UTF-8, touched, deleted, older/same mtime, rate changes) and compared with a model of the statement, observed behaviourally; concurrent plans include configurations that reject everything; three smoke cases through the real init_file (in-place edits; a symbolic link re-pointed atomically; a symbolic link whose target is edited in place) in which a valid change not applied within 30 s at refresh_rate 20 ms is a violation.",
           "Hooks H3, H4. Scheduler not controlled; reloader liveness by one bounded real-time smoke case.", "DESIGN.md §5 C15"),
   "C16": ("exploration", PBT + " of instants constructed around calendar and DST features, one process per time zone; oracle = proleptic-Gregorian reference written without chrono; model of the trigger object under a driven clock; real-clock scenarios across a real offset change in child processes",
-          "Schedule function: no panic, strictly in the future, and equal to the wall-clock reference wherever chrono reports a constant offset (over [start of the current unit, result]; for modulated schedules over [now, result]); trigger object: fires iff now >= scheduled, reschedules into the future; end-to-end: first record at/after the boundary opens the new file; real clock: a POSIX-rule zone switches two seconds into the case and triggers created after / running since before the switch must schedule under the offset in force; multipliers up to i64::MAX never schedule earlier than (n-1) units ahead.",
+          "Schedule function: no panic, strictly in the future, and equal to the wall-clock reference wherever chrono reports a constant offset (over [start of the current unit, result]; for modulated schedules over [now, result]); trigger object: fires iff now >= scheduled, reschedules into the future; end-to-end: first record at/after the boundary opens the new file; real clock: a POSIX-rule zone switches two seconds into the case and triggers created after / running since before the switch must schedule under the offset in force; a record 150-350 ms before the scheduled instant does not fire it; multipliers up to i64::MAX never schedule earlier than (n-1) units ahead.",
           "Hooks H1. UTC offsets (precondition only) from chrono; both modulate readings accepted.", "DESIGN.md §6 C16"),
   "C17": ("exploration", PBT + " of start-up situations (sizes around min_size, modes, lifetimes, barrier-released threads); oracle = exact archive/active content",
-          "Rolled iff size at start-up >= min_size, archive == pre-existing content, first record opens the fresh file, no further archive ever appears - also for a simultaneous start of 2-8 threads, after a start-up roll that failed before or after moving the file (not made up for later), with the trigger built by the onstartup deserializer without min_size, and over lifetimes of 70 000 records.",
+          "Rolled iff size at start-up >= min_size, archive == pre-existing content, first record opens the fresh file, no further archive ever appears - also for a simultaneous start of 2-8 threads, after a start-up roll that failed before or after moving the file (not made up for later), with the trigger built by the onstartup deserializer without min_size, with an encoder refusing the first record, with sparse pre-existing files beyond 4 GiB, and over lifetimes of 70 000 records.",
           "Scheduler not controlled (barrier amplification).", "DESIGN.md §3 C17"),
   "C18": ("exploration", "exhaustive 432-cell environment x terminal matrix in child processes on real ptys + exhaustive 243-style sweep + " + PBT + " of style pairs/interleavings; oracle = statement's cascade and an SGR interpreter",
           "Every cell runs in its own child with generated highlight patterns; target/non-target stream content, tty_only silence, presence of escapes per the colour cascade, well-formedness and resets are checked, with colour on the stream must carry exactly one sequence per style request of the pattern in its place; argument-free literal messages (4-9 kB, multi-line, multi-byte, empty) through {m} on both streams; builder call order varied; an encoder that refuses one record in mid-cell; every style must map any prior terminal state to exactly the requested attributes.",
